@@ -2439,31 +2439,93 @@ class _Kind(FactFlow):
                         return sym.rsplit('.', 1)[1], isinstance(e.ops[0], ast.Eq), frozenset(jobs)
         return None
 
+    def _atom_in(self, e):
+        """<name copy> in / not in (Factories.a.name, Factories.b.name, ...) -> ([kinds], positive, jobs)"""
+        if not (isinstance(e, ast.Compare) and len(e.ops) == 1 and isinstance(e.ops[0], (ast.In, ast.NotIn)) and isinstance(e.comparators[0], (ast.Tuple, ast.List, ast.Set))):
+            return None
+        ks, jobs = [], None
+        for el in e.comparators[0].elts:
+            a = self._atom(ast.Compare(left=e.left, ops=[ast.Eq()], comparators=[el]))
+            if a is None:
+                return None
+            ks.append(a[0])
+            jobs = a[2]
+        return (ks, isinstance(e.ops[0], ast.In), jobs) if ks else None
+
     def extra_atom(self, e):
-        return isinstance(e, ast.Compare) and self._atom(e) is not None
+        return isinstance(e, ast.Compare) and (self._atom(e) is not None or self._atom_in(e) is not None)
+
+    def _is(self, st, k, job):
+        """(states where the kind is k, states where it is not) - 'among' = set of kinds it is known to be one of"""
+        cur = fget(st, 'kind')
+        if cur is not None:
+            return ((st,), ()) if cur == k else ((), (st,))
+        if fget(st, ('not', k)):
+            return (), (st,)
+        among = fget(st, 'among')
+        if among is not None and k not in among:
+            return (), (st,)
+        yes = fput(fput(st, 'kind', k), 'kjob', job)
+        no = fput(st, ('not', k), True)
+        if among is not None:
+            left = frozenset(among) - {k}
+            no = fput(no, 'among', left)
+            if len(left) == 1:
+                no = fput(fput(no, 'kind', next(iter(left))), 'kjob', job)
+        return (yes,), (no,)
 
     def test(self, e, st):
         a = self._atom(e)
         if a is None:
-            return None
+            b = self._atom_in(e)
+            if b is None:
+                return None
+            ks, pos, job = b
+            cur = fget(st, 'kind')
+            if cur is not None:
+                yes, no = ((st,), ()) if cur in ks else ((), (st,))
+                return (yes, no) if pos else (no, yes)
+            poss = [k for k in ks if not fget(st, ('not', k)) and (fget(st, 'among') is None or k in fget(st, 'among'))]
+            no_st = st
+            for k in ks:
+                no_st = fput(no_st, ('not', k), True)
+            if fget(st, 'among') is not None:
+                no_st = fput(no_st, 'among', frozenset(fget(st, 'among')) - set(ks))
+            if not poss:
+                yes = ()
+            elif len(poss) == 1:
+                yes = (fput(fput(st, 'kind', poss[0]), 'kjob', job),)
+            else:
+                yes = (fput(st, 'among', frozenset(poss)),)
+            return (yes, (no_st,)) if pos else ((no_st,), yes)
         k, pos, _job = a
-        cur = fget(st, 'kind')
-        if cur is not None:
-            yes, no = ((st,), ()) if cur == k else ((), (st,))
-        elif fget(st, ('not', k)):
-            yes, no = (), (st,)
-        else:
-            yes, no = (fput(fput(st, 'kind', k), 'kjob', _job),), (fput(st, ('not', k), True),)
+        yes, no = self._is(st, k, _job)
         return (yes, no) if pos else (no, yes)
 
     def on_for(self, node, st):
         # a new job: forget the kind of the previous one when the loop variable is the job
-        st = frozenset((k, v) for k, v in st if not (k in ('kind', 'kjob') or (isinstance(k, tuple) and k[0] == 'not'))) if any(
+        st = frozenset((k, v) for k, v in st if not (k in ('kind', 'kjob', 'among') or (isinstance(k, tuple) and k[0] == 'not'))) if any(
             isinstance(n, ast.Name) and n.id in self.jobs for n in ast.walk(node.target)
         ) else st
         return super().on_for(node, st)
 
     jobs = frozenset()
+
+
+def _under_kind(kf, g, e, k):
+    """expression e of g with conditional expressions on the factory kind resolved for kind k (locals bound once to such
+    a conditional expression are followed)"""
+    if e is None:
+        return None
+    d = _deref(g, e)
+    if isinstance(d, ast.IfExp):
+        a = kf._atom(d.test)
+        if a is not None:
+            return _under_kind(kf, g, d.body if (a[0] == k) == a[1] else d.orelse, k)
+        b = kf._atom_in(d.test)
+        if b is not None:
+            return _under_kind(kf, g, d.body if (k in b[0]) == b[1] else d.orelse, k)
+    return e if d is e or not isinstance(d, ast.IfExp) else d
 
 
 def _emissions(model):
@@ -2618,79 +2680,85 @@ def _rule5(model, rep):
                 kf.jobs = frozenset(a['job'].id for _n, a in lst if isinstance(a['job'], ast.Name))
                 kf.run(g.node, frozenset())
                 pvj = None
-                for node, a in sorted(lst, key=lambda x: _pos(x[0])):
+                for node, a0 in sorted(lst, key=lambda x: _pos(x[0])):
                     r.instance()
                     sts = kf.at.get(id(node), set())
                     kinds = {fget(st, 'kind') for st in sts}
                     key = f'{gq}:{norm(node)[:90]}'
-                    if len(kinds) != 1 or None in kinds:
+                    if not kinds or None in kinds:
                         r.fail(key, where(g, node), f'task message made on a path where the factory kind of the job is not decided ({sorted(str(k) for k in kinds)}): '
                                'target and run id cannot be checked against the kind')
                         continue
-                    k = kinds.pop()
-                    seen_kinds.setdefault(k, []).append(key)
-                    job = a['job']
-                    jn = job.id if isinstance(job, ast.Name) else None
-                    kjobs = {fget(st, 'kjob') for st in sts}
-                    if jn is not None and kjobs != {_job_ids(model, g, jn)}:
-                        r.fail(
-                            key + ':kind-of-this-job',
+                    site_key, all_sts = key, sts
+                    for k in sorted(kinds):
+                        # one site may serve several kinds (the task and regress loops merged): each kind is checked with
+                        # the arguments specialised to it (conditional expressions on the kind resolved)
+                        sts = {st for st in all_sts if fget(st, 'kind') == k}
+                        key = site_key if len(kinds) == 1 else f'{site_key}[{k}]'
+                        a = {fld: _under_kind(kf, g, v, k) for fld, v in a0.items()}
+                        seen_kinds.setdefault(k, []).append(key)
+                        job = a['job']
+                        jn = job.id if isinstance(job, ast.Name) else None
+                        kjobs = {fget(st, 'kjob') for st in sts}
+                        if jn is not None and kjobs != {_job_ids(model, g, jn)}:
+                            r.fail(
+                                key + ':kind-of-this-job',
+                                where(g, node),
+                                f'the factory kind tested on this path is that of {sorted(sorted(x) if x else "?" for x in kjobs)}, not of the job {jn} the message is made for',
+                            )
+                        # the kind test is about the same job
+                        # target
+                        t = a['tgt']
+                        if t is None:
+                            t_ok, t_det = True, 'target not taken from the arguments (reported at the message)'
+                        elif k == 'analysis':
+                            t_ok, t_det = _const(t, None), 'target None (all targets)'
+                        else:
+                            t_ok, t_det = False, ''
+                            if isinstance(t, ast.Name):
+                                for n in g.own_nodes():
+                                    if isinstance(n, ast.For) and _is_name(n.target, t.id) and any(node is x for x in ast.walk(n)):
+                                        it = n.iter
+                                        while isinstance(it, ast.Call) and isinstance(it.func, ast.Name) and it.func.id in SEQ_COPY and it.args:
+                                            it = it.args[0]
+                                        jg = _job_get(_deref(g, it), 'do')
+                                        rebound = [x for b in n.body for x in ast.walk(b) if isinstance(x, ast.Name) and x.id == t.id and isinstance(x.ctx, (ast.Store, ast.Del))]
+                                        t_ok = jg is not None and jg[0] == jn and not rebound
+                                        t_det = f"each target of {jn}.get('do')"
+                        # run id
+                        ri = a['rid']
+                        if ri is None:
+                            r_ok, r_det = True, 'run id not taken from the arguments (reported at the message)'
+                        elif k == 'regress':
+                            r_ok, r_det = _const(ri, 0), 'run id 0'
+                        else:
+                            r_ok, r_det = True, ''
+                            jid_here = _job_ids(model, g, jn) if jn else frozenset()
+                            for g2, rv in _origins(model, g, ri):
+                                one = False
+                                if isinstance(rv, ast.Call):
+                                    fo = prog.func_of(prog.callee(rv, g2) or '')
+                                    if (
+                                        fo is not None
+                                        and fo.qname in rid_fns
+                                        and len(rv.args) == 1
+                                        and isinstance(rv.args[0], ast.Name)
+                                        and _job_ids(model, g2, rv.args[0].id) == jid_here
+                                    ):
+                                        one, r_det = True, f'run id {fo.name}({rv.args[0].id})'
+                                elif isinstance(rv, ast.Name) and g2.qname in rid_fns:
+                                    one, r_det = True, 'run id computed in place (R-C11-6)'
+                                r_ok = r_ok and one
+                        r.check(
+                            t_ok and r_ok and (jn is not None or job is None),
+                            key,
                             where(g, node),
-                            f'the factory kind tested on this path is that of {sorted(sorted(x) if x else "?" for x in kjobs)}, not of the job {jn} the message is made for',
+                            f'{k}: {t_det}; {r_det}',
+                            f'{k} job: the task message gets target {norm(t)[:30] if t is not None else "?"} and run id {norm(ri)[:30] if ri is not None else "?"}; expected '
+                            + ('no target' if k == 'analysis' else "each released target of the same job's do set")
+                            + ' and '
+                            + ('run id 0' if k == 'regress' else 'the run id drawn / reused for this job'),
                         )
-                    # the kind test is about the same job
-                    # target
-                    t = a['tgt']
-                    if t is None:
-                        t_ok, t_det = True, 'target not taken from the arguments (reported at the message)'
-                    elif k == 'analysis':
-                        t_ok, t_det = _const(t, None), 'target None (all targets)'
-                    else:
-                        t_ok, t_det = False, ''
-                        if isinstance(t, ast.Name):
-                            for n in g.own_nodes():
-                                if isinstance(n, ast.For) and _is_name(n.target, t.id) and any(node is x for x in ast.walk(n)):
-                                    it = n.iter
-                                    while isinstance(it, ast.Call) and isinstance(it.func, ast.Name) and it.func.id in SEQ_COPY and it.args:
-                                        it = it.args[0]
-                                    jg = _job_get(_deref(g, it), 'do')
-                                    rebound = [x for b in n.body for x in ast.walk(b) if isinstance(x, ast.Name) and x.id == t.id and isinstance(x.ctx, (ast.Store, ast.Del))]
-                                    t_ok = jg is not None and jg[0] == jn and not rebound
-                                    t_det = f"each target of {jn}.get('do')"
-                    # run id
-                    ri = a['rid']
-                    if ri is None:
-                        r_ok, r_det = True, 'run id not taken from the arguments (reported at the message)'
-                    elif k == 'regress':
-                        r_ok, r_det = _const(ri, 0), 'run id 0'
-                    else:
-                        r_ok, r_det = True, ''
-                        jid_here = _job_ids(model, g, jn) if jn else frozenset()
-                        for g2, rv in _origins(model, g, ri):
-                            one = False
-                            if isinstance(rv, ast.Call):
-                                fo = prog.func_of(prog.callee(rv, g2) or '')
-                                if (
-                                    fo is not None
-                                    and fo.qname in rid_fns
-                                    and len(rv.args) == 1
-                                    and isinstance(rv.args[0], ast.Name)
-                                    and _job_ids(model, g2, rv.args[0].id) == jid_here
-                                ):
-                                    one, r_det = True, f'run id {fo.name}({rv.args[0].id})'
-                            elif isinstance(rv, ast.Name) and g2.qname in rid_fns:
-                                one, r_det = True, 'run id computed in place (R-C11-6)'
-                            r_ok = r_ok and one
-                    r.check(
-                        t_ok and r_ok and (jn is not None or job is None),
-                        key,
-                        where(g, node),
-                        f'{k}: {t_det}; {r_det}',
-                        f'{k} job: the task message gets target {norm(t)[:30] if t is not None else "?"} and run id {norm(ri)[:30] if ri is not None else "?"}; expected '
-                        + ('no target' if k == 'analysis' else "each released target of the same job's do set")
-                        + ' and '
-                        + ('run id 0' if k == 'regress' else 'the run id drawn / reused for this job'),
-                    )
         r.instance()
         missing = [k for k in runnable if k not in seen_kinds]
         r.check(
